@@ -276,6 +276,10 @@ fn contexts() -> Vec<(String, Context)> {
         ("a=none", V::None),
         ("a unbound", V::Undef),
         ("a=\"s\"", V::s("s")),
+        // a map that *stores* an undefined value (Value::undefined() put in by the embedder, or a
+        // map literal built from a missing variable): the key exists, its value is undefined
+        ("a={b:undefined}", V::map(&[("b", V::Undef)])),
+        ("a={b:{c:undefined}}", V::map(&[("b", V::map(&[("c", V::Undef)]))])),
     ] {
         let ctx = vals::context(&[("a", &a), ("n", &V::None), ("xs", &xs), ("es", &es)]);
         out.push((name.to_string(), ctx));
